@@ -123,11 +123,14 @@ def _proxy(net, conn, iface, mode, target):
     elif mode == 'known':
         I.DBusInterface.knownInterfaces[IFACE] = iface
         d = conn.getRemoteObject(svc, '/calc', IFACE)
+    elif mode == 'introspect-by-name':
+        I.DBusInterface.knownInterfaces.pop(IFACE, None)
+        d = conn.getRemoteObject(svc, '/calc', IFACE if target % 2 else [IFACE])
     else:
         I.DBusInterface.knownInterfaces.pop(IFACE, None)
         d = conn.getRemoteObject(svc, '/calc')
     d.addBoth(res.append)
-    if not net.run_fifo() or len(res) != 1 or hasattr(res[0], 'value'):
+    if not net.run_fifo() or len(res) != 1 or not hasattr(res[0], 'callRemote'):
         raise N.RigFailure('getRemoteObject(%s) failed: %r' % (mode, res))
     return res[0]
 
@@ -279,7 +282,7 @@ def classify(case):
     if len(case['calls']) >= 2:
         nt = True
         labels.append('concurrent_calls')
-    if 'introspect' in case['proxy_modes']:
+    if 'introspect' in case['proxy_modes'] or 'introspect-by-name' in case['proxy_modes']:
         nt = True
         labels.append('introspected_proxy')
     for c in case['calls']:
@@ -320,7 +323,7 @@ def scenario(draw, tier, dfs=False):
         # cross calls: both clients export, each calls the other
         calls[0]['target'], calls[1]['target'] = 0, 1
     case = {'nclients': nclients, 'exporter': draw(st.integers(0, nclients - 1)), 'methods': methods,
-            'proxy_modes': [draw(st.sampled_from(['explicit', 'known', 'introspect'])) for _ in range(ncallers)],
+            'proxy_modes': [draw(st.sampled_from(['explicit', 'known', 'introspect', 'introspect-by-name'])) for _ in range(ncallers)],
             'calls': calls, 'fire_reversed': draw(st.booleans())}
     if dfs:
         case['cap'] = 300 if tier == 'quick' else 3000
